@@ -251,6 +251,8 @@ pub struct Case {
     pub opts: IntroOpts,
     pub doc_text: String,
     pub runtime: bool,
+    /// plugin list of the CLI project pair: 0 none, 1 model, 2 scalars, 3 model + scalars
+    pub plugins: usize,
 }
 
 fn gen_case(c: &mut Chooser) -> Option<Case> {
@@ -319,7 +321,8 @@ fn gen_case(c: &mut Chooser) -> Option<Case> {
         2 => "subscription S { tick }\n".to_string(),
         _ => "mutation M2($f: Filter!) { set(input: $f) { id } }\n".to_string(),
     };
-    Some(Case { files: base.files, tags: base.tags, opts, doc_text, runtime })
+    let plugins = c.choose("cli.plugins", 4);
+    Some(Case { files: base.files, tags: base.tags, opts, doc_text, runtime, plugins })
 }
 
 struct P2 {
@@ -411,7 +414,8 @@ fn check_case(rep: &Reporter, case: &Case, c: &Chooser, p2: &P2, with_cli: bool)
     }
 }
 
-const YAML_TAIL: &str = "documents: ./src/*.graphql\nextensions:\n  nitrogql:\n    generate:\n      mode: with-loader-ts-5.0\n      resolversOutput: ./generated/resolvers.d.ts\n      serverGraphqlOutput: ./generated/graphql.ts\n      type:\n        scalarTypes:\n          Version: string\n          Date: string\n          Stamp: string\n";
+const PLUGIN_LISTS: [&str; 4] = ["", "    plugins: [\"nitrogql:model-plugin\"]\n", "    plugins: [\"nitrogql:graphql-scalars-plugin\"]\n", "    plugins: [\"nitrogql:model-plugin\", \"nitrogql:graphql-scalars-plugin\"]\n"];
+const YAML_TAIL: &str = "documents: ./src/*.graphql\nextensions:\n  nitrogql:\n@PLUGINS@    generate:\n      mode: with-loader-ts-5.0\n      resolversOutput: ./generated/resolvers.d.ts\n      serverGraphqlOutput: ./generated/graphql.ts\n      type:\n        scalarTypes:\n          Version: string\n          Date: string\n          Stamp: string\n";
 
 #[allow(clippy::too_many_arguments)]
 fn cli_pair(rep: &Reporter, case: &Case, sch: &Sch, texts: &[String], json_text: &str, a: &Out, b: &Out, p2: &P2, case_json: &dyn Fn(J) -> J) {
@@ -423,7 +427,7 @@ fn cli_pair(rep: &Reporter, case: &Case, sch: &Sch, texts: &[String], json_text:
             p.files.insert(n, t);
         }
         p.files.insert("src/op.graphql".into(), case.doc_text.clone());
-        p.files.insert("graphql.config.yaml".into(), format!("schema: {schema_glob}\n{YAML_TAIL}{extra}"));
+        p.files.insert("graphql.config.yaml".into(), format!("schema: {schema_glob}\n{}{extra}", YAML_TAIL.replace("@PLUGINS@", PLUGIN_LISTS[case.plugins])));
         let dir = cli::thread_dir("c15");
         cli::materialize(&dir, &p);
         let args: Vec<String> = ["--config-file", "graphql.config.yaml", "--output-format", "json", "check", "generate"].iter().map(|s| s.to_string()).collect();
@@ -486,7 +490,7 @@ pub fn run(args: &RunArgs) -> i32 {
             skip(&p2, "model does not merge");
             return;
         };
-        let key = format!("{:?}|{:?}|{}|{}", case.files, case.opts, case.doc_text, case.runtime);
+        let key = format!("{:?}|{:?}|{}|{}|{}", case.files, case.opts, case.doc_text, case.runtime, case.plugins);
         if !distinct.insert(fnv(key.as_bytes())) {
             return;
         }
